@@ -273,7 +273,11 @@ func (its *document) PutToObject(key string, value interface{}) (Document, error
 	if hasNullValue(value) {
 		return nil, errors.DatatypeIllegalParameters.New(its.L(), "null value is not allowed")
 	}
-	op := operations.NewDocPutInObjOperation(its.snapshot().getCreateTime(), key, value)
+	jsonValues, err := its.toJSONValues(value)
+	if err != nil {
+		return nil, err
+	}
+	op := operations.NewDocPutInObjOperation(its.snapshot().getCreateTime(), key, jsonValues[0])
 	removed, err := its.SentenceInTx(its.TxCtx, op, true)
 	if err != nil {
 		return nil, err
@@ -344,6 +348,10 @@ func (its *document) InsertToArray(pos int, values ...interface{}) (Document, er
 	if hasNullValue(values...) {
 		return its, errors.DatatypeIllegalParameters.New(its.L(), "null value is not allowed")
 	}
+	values, err := its.toJSONValues(values...)
+	if err != nil {
+		return its, err
+	}
 	op := operations.NewDocInsertToArrayOperation(its.snapshot().getCreateTime(), pos, values)
 	if _, err := its.SentenceInTx(its.TxCtx, op, true); err != nil {
 		return its, err
@@ -391,6 +399,10 @@ func (its *document) UpdateManyInArray(pos int, values ...interface{}) ([]Docume
 	}
 	if hasNullValue(values...) {
 		return nil, errors.DatatypeIllegalParameters.New(its.L(), "null value is not allowed")
+	}
+	values, err := its.toJSONValues(values...)
+	if err != nil {
+		return nil, err
 	}
 	op := operations.NewDocUpdateInArrayOperation(its.snapshot().getCreateTime(), pos, values)
 	oldOnes, err := its.SentenceInTx(its.TxCtx, op, true)
@@ -448,6 +460,27 @@ func (its *document) toDocument(child jsonType) Document {
 }
 
 // hasNullValue tells if any of values is nil or a nil pointer, which cannot be stored in a Document.
+// toJSONValues returns the values as their JSON encoding describes them, which is what every other replica
+// decodes from the operation: structs, typed maps and slices become objects and arrays, the keys of a map
+// become strings, and a type with its own JSON encoding (time.Time, big.Int, json.RawMessage, ...) takes that
+// encoding. The local replica has to build the same nodes from a value as the replicas that receive it.
+func (its *document) toJSONValues(values ...interface{}) ([]interface{}, errors.OrdaError) {
+	ret := make([]interface{}, len(values))
+	for i, v := range values {
+		b, err := json.Marshal(v)
+		if err != nil {
+			return nil, errors.DatatypeIllegalParameters.New(its.L(), err.Error())
+		}
+		if err := json.Unmarshal(b, &ret[i]); err != nil {
+			return nil, errors.DatatypeIllegalParameters.New(its.L(), err.Error())
+		}
+		if ret[i] == nil {
+			return nil, errors.DatatypeIllegalParameters.New(its.L(), "null value is not allowed")
+		}
+	}
+	return ret, nil
+}
+
 func hasNullValue(values ...interface{}) bool {
 	for _, v := range values {
 		// nil, and nil pointers, slices and maps: all of them encode to JSON null
